@@ -4,6 +4,9 @@
 import re, subprocess, sys, os
 br = sys.argv[1]
 def sh(c): return subprocess.run(c, shell=True, capture_output=True, text=True)
+if sh("git status --porcelain --untracked-files=no").stdout.strip():
+    # a dirty tree makes `git merge` abort and the final `git add -A && git commit` would then record the local edits as "merge"
+    sh("git add -A && git commit -qm 'work in progress before merging %s'" % br)
 r = sh(f"git merge --no-edit {br}")
 print(r.stdout[-300:], r.stderr[-300:])
 conf = sh("git diff --name-only --diff-filter=U").stdout.split()
